@@ -435,9 +435,8 @@ class TimeEvolutionAlgorithm(Algorithm):
             old_norm = self.psi.norm
 
         self.prepare_evolve(dt)
-        trunc_err = self.evolve(N_steps, dt)
+        self.evolve(N_steps, dt)  # accumulates `self.trunc_err`
 
-        self.trunc_err = self.trunc_err + trunc_err  # not += : make a copy!
         if preserve_norm:
             self.psi.norm = old_norm
 
@@ -499,6 +498,7 @@ class TimeEvolutionAlgorithm(Algorithm):
             )
 
         self.evolved_time = self.evolved_time + N_steps * dt
+        self.trunc_err = self.trunc_err + trunc_err  # not += : make a copy!
         # (this is done to avoid problems of users storing self.trunc_err after each `update`)
         return trunc_err
 
